@@ -48,9 +48,12 @@ pub enum TxEdit {
     /// BlockStake-typed transaction, signed by the owner, spending the owner's own output that has
     /// left the window (edge first: the block that leaves it with the next block) (C01 only)
     StakeTypeExpiredInput,
+    /// BlockStake-typed transaction, signed by the owner, spending an output of the owner that was
+    /// spent in an earlier block (C01, and C02's side-chain motif)
+    StakeTypeSpentInput,
 }
 /// edits that are judged by C01 only (kept out of TX_EDITS so that recorded edit indices stay stable)
-pub const TX_EDITS_EXTRA: [TxEdit; 7] = [TxEdit::OffChainInput, TxEdit::StakeTypeNoInput, TxEdit::StakeTypeForeignInput, TxEdit::AtrTypeForeignInput, TxEdit::AtrTypeMintNormalOutput, TxEdit::TwiceInBlock, TxEdit::StakeTypeExpiredInput];
+pub const TX_EDITS_EXTRA: [TxEdit; 8] = [TxEdit::OffChainInput, TxEdit::StakeTypeNoInput, TxEdit::StakeTypeForeignInput, TxEdit::AtrTypeForeignInput, TxEdit::AtrTypeMintNormalOutput, TxEdit::TwiceInBlock, TxEdit::StakeTypeExpiredInput, TxEdit::StakeTypeSpentInput];
 pub const TX_EDITS: [TxEdit; 19] = [
     TxEdit::ForgedSig,
     TxEdit::NoSig,
@@ -241,6 +244,21 @@ pub fn edited_tx(e: TxEdit, c: &EditCtx) -> Option<Transaction> {
             let owner = (0u8..8).map(key).find(|k| k.0 == s.public_key)?;
             let amt = s.amount;
             Some(tx_from_inputs(vec![s], vec![out(owner.0, amt)], &owner, c.ts, vec![]))
+        }
+        TxEdit::StakeTypeSpentInput => {
+            let s = c.spent.first()?.clone();
+            let owner = (0u8..8).map(key).find(|k| k.0 == s.public_key)?;
+            let amt = s.amount;
+            let mut t = tx_from_inputs(vec![s], vec![], &owner, c.ts, vec![]);
+            let mut o = Slip::default();
+            o.public_key = owner.0;
+            o.amount = amt;
+            o.slip_type = SlipType::BlockStake;
+            t.to.push(o);
+            t.transaction_type = TransactionType::BlockStake;
+            t.sign(&owner.1);
+            t.generate(&owner.0, 0, 0);
+            Some(t)
         }
         TxEdit::StakeTypeExpiredInput => {
             let s = c.expired.first()?.clone();
